@@ -7,16 +7,14 @@
 #endif
 
 using namespace vf;
-typedef BG<double>::Graph G;
-typedef BG<double>::Edge E;
-typedef BG<double>::WMap WM;
 
 static const char *entry_names[] = {"mcb_sva_signed_tbb", "mcb_sva_fvs_trees_tbb", "mcb_sva_iso_trees_tbb", "approx_mcb_sva_signed_tbb", "approx_mcb_sva_fvs_trees_tbb", "approx_mcb_sva_iso_trees_tbb"};
 
 static bool to_units_d(const GraphSpec &s, double v, ll &u) { double x = std::ldexp(v, s.wshift); if (!std::isfinite(x) || std::fabs(x) > 9e18 || x != std::floor(x)) return false; u = (ll) x; return true; }
+static bool to_units_d(const GraphSpec &, int v, ll &u) { u = v; return true; }
 
-static GraphSpec gen_sched_graph(Rng &r, int max_n) {
-    GenOpts o; o.max_n = max_n; o.tie_bias = 0.55; o.allow_degenerate = true;
+static GraphSpec gen_sched_graph(Rng &r, int max_n, bool int_only) {
+    GenOpts o; o.max_n = max_n; o.int_only = int_only; o.tie_bias = 0.55; o.allow_degenerate = true;
     GraphSpec s;
     if (r.chance(0.2)) { // dense core (the all-vertices branch |S_k| >= n runs) plus pendant / isolated vertices at random indices
         Topo t; int core = (int) r.range(6, 12); topo_er(r, t, core, 0.6 + 0.4 * r.real()); int n = core; int extra = (int) r.range(1, 3);
@@ -32,20 +30,22 @@ static GraphSpec gen_sched_graph(Rng &r, int max_n) {
     return s;
 }
 
-struct RunResult { double ret = 0; std::list<std::list<E>> cycles; std::string exc; };
-static RunResult run_entry(int entry, const G &g, WM w, size_t k) {
-    RunResult R;
-    try { if (entry < 3) R.ret = run_exact<double>(3 + entry, g, w, R.cycles); else R.ret = run_approx<double>(entry, g, w, k, R.cycles); }
+template<class W> struct RunResult { W ret = 0; std::list<std::list<typename BG<W>::Edge>> cycles; std::string exc; };
+template<class W>
+static RunResult<W> run_entry(int entry, const typename BG<W>::Graph &g, typename BG<W>::WMap w, size_t k) {
+    RunResult<W> R;
+    try { if (entry < 3) R.ret = run_exact<W>(3 + entry, g, w, R.cycles); else R.ret = run_approx<W>(entry, g, w, k, R.cycles); }
     catch (std::exception &e) { R.exc = e.what(); } catch (std::runtime_error *e) { R.exc = e->what(); delete e; } catch (...) { R.exc = "unknown"; }
     return R;
 }
 
-static void judge(CaseOut &co, const GraphSpec &s, const G &g, int entry, size_t k, const RunResult &R, const OracleResult &orc, ll seq_units, const std::string &cfg_json, const std::string &cfg_tag) {
-    std::string cj = J().str("entry", entry_names[entry]).num("k", (ll) k).raw("config", cfg_json).raw("graph", spec_json(s)).done();
+template<class W>
+static void judge(CaseOut &co, const GraphSpec &s, const typename BG<W>::Graph &g, int entry, size_t k, const RunResult<W> &R, const OracleResult &orc, ll seq_units, const std::string &cfg_json, const std::string &cfg_tag) {
+    std::string cj = J().str("entry", entry_names[entry]).str("weight_type", std::is_same<W, int>::value ? "int" : "double").num("k", (ll) k).raw("config", cfg_json).raw("graph", spec_json(s)).done();
     std::string key = std::string(entry_names[entry]) + ":";
     if (!R.exc.empty()) { co.viol(key + "exception", R.exc, cj, spec_text(s)); return; }
-    BasisReport br = check_basis<double>(s, g, R.cycles);
-    std::string obs = J().num("emitted_cycles", (ll) br.count).raw("cycle_weights_units", jnums(br.weights)).dbl("returned", R.ret).num("optimum_units", orc.opt).done();
+    BasisReport br = check_basis<W>(s, g, R.cycles);
+    std::string obs = J().num("emitted_cycles", (ll) br.count).raw("cycle_weights_units", jnums(br.weights)).dbl("returned", (double) R.ret).num("optimum_units", orc.opt).done();
     if (!br.error.empty()) { co.viol(key + "invalid_basis(" + br.kind + ")", br.error + " " + cfg_tag, cj, spec_text(s), obs); return; }
     ll ru; if (!to_units_d(s, R.ret, ru) || ru != br.total) co.viol(key + "returned_ne_emitted", "returned " + std::to_string(R.ret) + ", emitted cycles weigh " + std::to_string(br.total) + " units " + cfg_tag, cj, spec_text(s), obs);
     if (entry < 3) {
@@ -56,6 +56,46 @@ static void judge(CaseOut &co, const GraphSpec &s, const G &g, int entry, size_t
         if (br.total > (ll) (2 * k - 1) * orc.opt) co.viol(key + "bound_exceeded", "emitted " + std::to_string(br.total) + " > (2k-1)*OPT = " + std::to_string((ll) (2 * k - 1) * orc.opt) + " " + cfg_tag, cj, spec_text(s), obs);
         else if (k == 1 && br.total != orc.opt) co.viol(key + "k1_not_minimum", "k=1 but emitted " + std::to_string(br.total) + " != OPT " + std::to_string(orc.opt) + " " + cfg_tag, cj, spec_text(s), obs);
     }
+}
+
+template<class W>
+static void run_case(const Args &a, uint64_t i, Rng &r, const GraphSpec &s, bool threaded, bool real, int nsched, long &executions) {
+        CaseOut co(i);
+        int dim = cycle_space_dim(s);
+        typedef typename BG<W>::Graph G; typedef typename BG<W>::Edge E; typedef typename BG<W>::WMap WM;
+        G g; build_graph<W>(s, g); WM w = boost::get(boost::edge_weight, g);
+        OracleResult orc = horton_oracle(s); if (!orc.ok) { emit_harness_failure("oracle failed"); exit(2); }
+        // sequential counterparts (no TBB involved)
+        ll seq_units[3];
+        for (int v = 0; v < 3; v++) { std::list<std::list<E>> c; W rv = run_exact<W>(v, g, w, c); if (!to_units_d(s, rv, seq_units[v])) seq_units[v] = -1; }
+        int elo = (int) a.geti("entry_lo", 0), ehi = (int) a.geti("entry_hi", 5);
+        for (int entry = elo; entry <= ehi; entry++) {
+            for (int sc = 0; sc < nsched; sc++) {
+                size_t k = entry < 3 ? 0 : (size_t) r.range(1, 3);
+                if (a.opt.count("k")) k = (size_t) a.geti("k", 2);
+                uint64_t sseed = r.next(); if (a.opt.count("sched")) sseed = strtoull(a.gets("sched", "1").c_str(), 0, 10);
+                static const int Ts[] = {2, 3, 4, 8, 16}; int T = threaded ? Ts[r.below(5)] : 1; if (a.opt.count("T")) T = (int) a.geti("T", 4);
+                std::string cfg, tag;
+#ifdef VSHIM_ACTIVE
+                vshim::S().reset(sseed, T, threaded);
+                cfg = J().str("scheduler", threaded ? "shim-threaded" : "shim-serial").unum("schedule_seed", sseed).num("workers", T).done();
+                tag = "[schedule seed " + std::to_string(sseed) + ", " + (threaded ? std::to_string(T) + " threads" : "serial") + "]";
+                RunResult<W> R = run_entry<W>(entry, g, w, k);
+#else
+                static const int lims[] = {1, 2, 4, 16}; int lim = lims[r.below(4)];
+                cfg = J().str("scheduler", "oneTBB").num("max_allowed_parallelism", lim).done(); tag = "[oneTBB limit " + std::to_string(lim) + "]";
+                RunResult<W> R; { tbb::global_control gc(tbb::global_control::max_allowed_parallelism, lim); R = run_entry<W>(entry, g, w, k); }
+                (void) sseed; (void) T;
+#endif
+                executions++;
+                judge<W>(co, s, g, entry, k, R, orc, entry < 3 ? seq_units[entry] : 0, cfg, tag);
+                if (!a.replay.empty() && a.opt.count("sched")) break;
+            }
+        }
+        co.hash = mix(canon_hash(s), std::is_same<W, int>::value ? 1 : 0); co.nontrivial = dim >= 2;
+        co.tag("fam:" + s.family.substr(0, s.family.find('+'))); co.tag(std::is_same<W, int>::value ? "wtype:int" : "wtype:double"); if (dim >= 20) co.tag("csd>=20"); if (s.tie_rich) co.tag("tie_rich"); if (dim >= s.n && dim >= 2) co.tag("dense");
+        if ((int) (i - a.from) < a.samples) co.sample = J().raw("graph", spec_json(s, 40)).num("cycle_space_dim", dim).num("schedules_per_entry", nsched).str("weight_type", std::is_same<W, int>::value ? "int" : "double").done();
+        co.end();
 }
 
 int main(int argc, char **argv) {
@@ -75,42 +115,11 @@ int main(int argc, char **argv) {
         Rng r(case_seed(a.seed, threaded ? "C03t" : real ? "C03r" : "C03", i));
         GraphSpec s;
         if (!a.replay.empty()) { std::ifstream in(a.replay); if (!parse_spec(in, s)) { emit_harness_failure("cannot parse replay spec"); exit(2); } }
-        else s = gen_sched_graph(r, max_n);
-        CaseOut co(i);
-        int dim = cycle_space_dim(s);
-        G g; build_graph<double>(s, g); WM w = boost::get(boost::edge_weight, g);
-        OracleResult orc = horton_oracle(s); if (!orc.ok) { emit_harness_failure("oracle failed"); exit(2); }
-        // sequential counterparts (no TBB involved)
-        ll seq_units[3];
-        for (int v = 0; v < 3; v++) { std::list<std::list<E>> c; double rv = run_exact<double>(v, g, w, c); if (!to_units_d(s, rv, seq_units[v])) seq_units[v] = -1; }
-        int elo = (int) a.geti("entry_lo", 0), ehi = (int) a.geti("entry_hi", 5);
-        for (int entry = elo; entry <= ehi; entry++) {
-            for (int sc = 0; sc < nsched; sc++) {
-                size_t k = entry < 3 ? 0 : (size_t) r.range(1, 3);
-                if (a.opt.count("k")) k = (size_t) a.geti("k", 2);
-                uint64_t sseed = r.next(); if (a.opt.count("sched")) sseed = strtoull(a.gets("sched", "1").c_str(), 0, 10);
-                static const int Ts[] = {2, 3, 4, 8, 16}; int T = threaded ? Ts[r.below(5)] : 1; if (a.opt.count("T")) T = (int) a.geti("T", 4);
-                std::string cfg, tag;
-#ifdef VSHIM_ACTIVE
-                vshim::S().reset(sseed, T, threaded);
-                cfg = J().str("scheduler", threaded ? "shim-threaded" : "shim-serial").unum("schedule_seed", sseed).num("workers", T).done();
-                tag = "[schedule seed " + std::to_string(sseed) + ", " + (threaded ? std::to_string(T) + " threads" : "serial") + "]";
-                RunResult R = run_entry(entry, g, w, k);
-#else
-                static const int lims[] = {1, 2, 4, 16}; int lim = lims[r.below(4)];
-                cfg = J().str("scheduler", "oneTBB").num("max_allowed_parallelism", lim).done(); tag = "[oneTBB limit " + std::to_string(lim) + "]";
-                RunResult R; { tbb::global_control gc(tbb::global_control::max_allowed_parallelism, lim); R = run_entry(entry, g, w, k); }
-                (void) sseed; (void) T;
-#endif
-                executions++;
-                judge(co, s, g, entry, k, R, orc, entry < 3 ? seq_units[entry] : 0, cfg, tag);
-                if (!a.replay.empty() && a.opt.count("sched")) break;
-            }
-        }
-        co.hash = canon_hash(s); co.nontrivial = dim >= 2;
-        co.tag("fam:" + s.family.substr(0, s.family.find('+'))); if (dim >= 20) co.tag("csd>=20"); if (s.tie_rich) co.tag("tie_rich"); if (dim >= s.n && dim >= 2) co.tag("dense");
-        if ((int) (i - a.from) < a.samples) co.sample = J().raw("graph", spec_json(s, 40)).num("cycle_space_dim", dim).num("schedules_per_entry", nsched).done();
-        co.end();
+        // the weight value type is a template parameter (the reduce identities are built from numeric_limits<W>): int as well as double
+        bool use_int = a.replay.empty() ? r.chance(0.3) : a.gets("wtype", "double") == "int";
+        if (a.replay.empty()) s = gen_sched_graph(r, max_n, use_int);
+        if (use_int) { ll tot = 0; for (auto &e : s.edges) tot += e.w; if (s.wshift != 0 || s.wmode != 0 || tot * 12 > 2000000000LL) use_int = false; }
+        if (use_int) run_case<int>(a, i, r, s, threaded, real, nsched, executions); else run_case<double>(a, i, r, s, threaded, real, nsched, executions);
         if (!a.replay.empty()) break;
     }
     J j; j.num("executions", executions).num("oracle_selfcheck_graphs", q);
